@@ -34,6 +34,8 @@ pub struct MinDev {
     pub pending_ques: Option<u16>,
     /// what each stored message executed by `TEST:MACRo` / `TEST:SMACro` ended with, in call order
     pub nested: ArrayVec<Option<Error>, 4>,
+    /// see `push_error`
+    pub own_push_error: bool,
 }
 
 impl MinDev {
@@ -50,6 +52,7 @@ impl MinDev {
             pending_oper: None,
             pending_ques: None,
             nested: ArrayVec::new(),
+            own_push_error: false,
         }
     }
     pub fn queue_len(&self) -> usize {
@@ -170,7 +173,19 @@ impl ErrorQueue for MinDev {
     }
 }
 
-impl ScpiDevice for MinDev {}
+impl ScpiDevice for MinDev {
+    /// A device may keep its own book of errors: with `own_push_error` this one overrides the provided
+    /// `push_error` - same ESR / queue handling for the error classes, but the -800 "operation complete"
+    /// event class is not the error hook's business on this device (`*OPC` is `scpi_opc()`'s own job).
+    fn push_error(&mut self, err: Error) {
+        if self.own_push_error && (-899..=-800).contains(&err.get_code()) {
+            return;
+        }
+        let esr = self.esr() | err.esr_mask();
+        self.set_esr(esr);
+        self.push_back_error(err);
+    }
+}
 
 /// `TEST:FAIL <code>,<custom>,<extended>`: the handler returns that error.
 pub struct FailCommand;
